@@ -42,7 +42,10 @@ func classifyErr(err error) string {
 			ps = nil
 			break
 		}
-		ps = append(ps, mm[1])
+		// one method may attach several checks sharing its message (Safe = Gte + Lte): report the method once
+		if len(ps) == 0 || ps[len(ps)-1] != mm[1] {
+			ps = append(ps, mm[1])
+		}
 	}
 	if ps != nil {
 		return "rej:checks:" + strings.Join(ps, ",")
@@ -175,7 +178,7 @@ func genString(r *hx.Rng, maxLen int, ascii bool) string {
 func runStrings(o *hx.Out, r *hx.Rng, n int) {
 	fv := foreignValues()
 	for i := 0; i < n; i++ {
-		nchecks := r.Intn(6)
+		nchecks := r.Intn(9)
 		var cs []chk
 		unicodeSensitive := false
 		for j := 0; j < nchecks; j++ {
@@ -212,9 +215,19 @@ func runStrings(o *hx.Out, r *hx.Rng, n int) {
 			schema = gozod.StringPtr()
 		}
 		var toks []string
+		parents := []any{schema}
 		for pos, c := range cs {
 			schema = applyStrCheck(schema, pos, c)
+			parents = append(parents, schema)
 			toks = append(toks, c.tokens())
+		}
+		// Derive decoy siblings from every intermediate schema AFTER the chain exists: deriving must not
+		// change an existing schema (a shared check slice would let the decoy overwrite the chain's check).
+		if r.Chance(60) {
+			for pos, par := range parents {
+				applyStrCheck(par, 90+pos, chk{kind: "len", n: 77})
+				applyStrCheck(par, 90+pos, chk{kind: "sw", s: "decoy"})
+			}
 		}
 		head := fmt.Sprintf("c01 str %s %d %s", hx.B01(ctorPtr), len(cs), strings.Join(toks, " "))
 		emit := func(tok string, v any, how string) {
@@ -384,9 +397,11 @@ func runNums(o *hx.Out, r *hx.Rng, n int) {
 		variant := r.Intn(2)
 		var schema any = numCtors[k.name][variant]()
 		in := randNum(r, k)
-		nchecks := r.Intn(5)
+		nchecks := r.Intn(8)
 		var toks []string
+		numParents := []any{schema}
 		for pos := 0; pos < nchecks; pos++ {
+			numParents = append(numParents, schema)
 			m := fmt.Sprintf("m%d", pos)
 			rv := reflect.ValueOf(schema)
 			op := hx.Pick(r, []string{"lt", "lte", "gt", "gte"})
@@ -435,6 +450,18 @@ func runNums(o *hx.Out, r *hx.Rng, n int) {
 			}
 			schema = rv.MethodByName(meth).Call([]reflect.Value{reflect.ValueOf(bound), reflect.ValueOf(m)})[0].Interface()
 			toks = append(toks, "cmp "+op+" "+btok)
+		}
+		if r.Chance(60) {
+			for _, par := range numParents {
+				rvp := reflect.ValueOf(par)
+				if k.float {
+					rvp.MethodByName("Gt").Call([]reflect.Value{reflect.ValueOf(1e300), reflect.ValueOf("decoy")})
+					rvp.MethodByName("Lt").Call([]reflect.Value{reflect.ValueOf(-1e300), reflect.ValueOf("decoy")})
+				} else {
+					rvp.MethodByName("Gt").Call([]reflect.Value{reflect.ValueOf(int64(math.MaxInt64)), reflect.ValueOf("decoy")})
+					rvp.MethodByName("MultipleOf").Call([]reflect.Value{reflect.ValueOf(int64(1<<40 + 1)), reflect.ValueOf("decoy")})
+				}
+			}
 		}
 		head := fmt.Sprintf("c01 num %s %d %d %s", k.name, variant, nchecks, strings.Join(toks, " "))
 		emit := func(tok string, v any, how string) {
